@@ -108,7 +108,7 @@ prop('C05',
            'synctest bubble, followed by a fair completion phase (all elements offered with the inputs still open, then inputs closed); oracle: list functions on the input; '
            'delivered is a prefix of the expected list at every receive, equal to it when the output closes, per-argument call counts and call order of the user function, '
            'number of elements removed from the input (Take/TakeWhile), early close of Take/TakeWhile without waiting for more input, no goroutine of the stage alive after completion; '
-           'plus Seq/ToSeq: ToSeq(chain(Seq(xs...))) for generated chains of Map/Filter/Take/TakeWhile/FMap over 0..24 (10%: 1000..2200) elements equals the list functions, the caller overwriting its slice right after Seq returned; the input buffer may already hold elements when the stage is created (Prefill); non-trivial = input length >= 2 and (capacity < length or a quiescent point with a blocked producer / full buffer); distinct = different canonical scenario'),
+           'plus Seq/ToSeq: ToSeq(chain(Seq(xs...))) for generated chains of Map/Filter/Take/TakeWhile/FMap over 0..24 (10%: 1000..2200) elements equals the list functions, the caller overwriting its slice right after Seq returned; the input buffer may already hold elements when the stage is created (Prefill); a fifth of the scenarios run an independent second instance of the stage alongside (own channels and context, must complete as if alone); a separate part streams elements of type any (nil interface, typed nils, zero values, non-comparable payloads) through Take/Filter/Map/TakeWhile; all scripts of 5 (thorough: 7) moves over {send, close, recv 0, recv 1, burst 2} are enumerated for every stage, capacity {0,1} and two inputs; non-trivial = input length >= 2 and (capacity < length or a quiescent point with a blocked producer / full buffer); distinct = different canonical scenario'),
      assumptions=E3_ASSUME,
      parts=[
          dict(name='enum', engine='E3', pkg='pipes', test='TestC05Enum', kind='plain',
@@ -136,7 +136,7 @@ prop('C06',
            'for every stage, mode and capacity {0,1,3}; oracle: no process death (journal), delivered prefix of the uncancelled result at every receive (Fold/ForEach/Void: nothing or the full result), '
            'uncancelled runs: every port closes under a fair consumer and no stage goroutine remains (goroutine census of the bubble; Throttling may keep one pacer); after cancel + close of all inputs with NO further receive: '
            'census empty after a virtual horizon, then every port drains to "closed"; bubble exit without deadlock; '
-           '(leak verdicts come from the bubble itself: it cannot end while a goroutine of the stage is blocked; the census is taken for Throttling and to describe a leak); enumerated scenarios are repeated to sample select tie-breaks; non-trivial = cancel while a producer is blocked / buffer full, or cancel inside a batch; distinct = different canonical scenario'),
+           '(leak verdicts come from the bubble itself: it cannot end while a goroutine of the stage is blocked; the census is taken for Throttling and to describe a leak); enumerated scenarios are repeated to sample select tie-breaks; stages are also created on an already cancelled context, and a sixth of the scenarios run an independent never-cancelled second instance alongside which must complete as if alone; non-trivial = cancel while a producer is blocked / buffer full, or cancel inside a batch; distinct = different canonical scenario'),
      assumptions=E3_ASSUME + ['goroutines are attributed to the stage by frames in github.com/fogfish/golem/pipe/v2 within the current bubble'],
      parts=[
          dict(name='cancel-enum', engine='E3', pkg='pipes', test='TestC06Cancel', kind='plain',
@@ -157,7 +157,7 @@ prop('C07',
            '(values first, errors first, alternating, stepwise, fair only); generated: inputs up to 40 elements with duplicates, random failing value sets, random scripts, error values that wrap '
            'context.Canceled / DeadlineExceeded / io.EOF, StdErr wrapping; oracle: exact value and error sequences per mode, both channels closed, call count = k+1 and elements removed <= k+1 under fail-fast, '
            'fail-fast closes without waiting for further input, no stuck state under a fair consumer that reads the error channel; '
-           'error values also include a slice-typed (non-comparable) error type; every enumerated Map/FMap mask is also run with the StdErr reader of the library itself as the error reader; non-trivial = at least one failing and one succeeding element with a success after the first failure; distinct = different canonical scenario'),
+           'error values also include a slice-typed (non-comparable) error type; every enumerated Map/FMap mask is also run with the StdErr reader of the library itself as the error reader; a sixth of the Map/FMap scenarios run an independent second instance alongside (own failing set); non-trivial = at least one failing and one succeeding element with a success after the first failure; distinct = different canonical scenario'),
      assumptions=E3_ASSUME + ['the error channel is always eventually read (proviso of the statement)', 'a failing arrow emits nothing before failing'],
      parts=[
          dict(name='enum', engine='E3', pkg='pipes', test='TestC07Enum', kind='plain',
@@ -178,7 +178,7 @@ prop('C08',
            'try-receive, drain-to-empty) ending by class: cancel by the harness, cancel with a backlog just sent, sends racing the cancel inside one batch, close of the send side with a backlog; '
            'oracle: FIFO model of the sends that completed: at every quiescent point every started send has returned (a send never waits for the receiver), received values are exactly 1,2,3,..., '
            'the receive side never closes before cancel/close, and after cancel or close-by-sender a full drain yields every completed send and then "closed"; process survives (journal), bubble ends (no leak); '
-           'besides the sequential sender, batches start 1..8 INDEPENDENT one-shot senders (several goroutines parked on a full send buffer while the cancel arrives; their values may arrive in any order, each at most once, every completed one delivered); in 25% of the scenarios a pipe of another element type (string) runs through a few values first in the same process; non-trivial = backlog >= 2 at some quiescent point and (the stream ends with a backlog / racing sends, or the queue drained to empty and refilled at least twice); distinct = different canonical scenario'),
+           'besides the sequential sender, batches start 1..8 INDEPENDENT one-shot senders (several goroutines parked on a full send buffer while the cancel arrives; their values may arrive in any order, each at most once, every completed one delivered); in 25% of the scenarios a pipe of another element type (string) runs through a few values first in the same process; a fifth of the scenarios keep a second pipe of the same element type alive for the whole scenario (own context, five values, ended the other way), 5% create the pipe on a cancelled context; a separate part sends values of type any (nil interface, zero values, non-comparable payloads); all scripts of 5 (thorough: 7) moves over {send, recv, drain, burst 3, recv+send batch} are enumerated for capacities {0,1,2} and both ways of ending the stream; non-trivial = backlog >= 2 at some quiescent point and (the stream ends with a backlog / racing sends, or the queue drained to empty and refilled at least twice); distinct = different canonical scenario'),
      assumptions=E3_ASSUME + ['no send is started after a completed cancel (the library closes the send side on cancel by design); a send racing the cancel may complete, give up or hit the closed channel - only completed sends enter the model'],
      parts=[
          dict(name='any-elements', engine='E3', pkg='pipes', test='TestC08Any', replay_test='TestReplayAny',
@@ -202,7 +202,7 @@ prop('C09',
            'one call held until everything else is done and the input closed, cancel with calls in flight); second tier: the same scenario families free-running under -race with GOMAXPROCS in {1,2,4,16}; '
            'oracle: delivered multisets are sub-multisets of what the sequential stage delivers at every receive and equal at close (Try errors likewise), per-argument call count = multiplicity, in-flight calls <= workers at every quiescent point, '
            'no output observed closed while a call is in flight, closure/cancel/leak clauses as C06 (fair completion, census, bubble exit), no race report; '
-           'calls in flight stay gated across a cancel (an output observed closed while a call is in flight is a violation, cancelled or not); a constructed class makes every in-flight call return in the same batch with the output buffer partly filled and nobody receiving (repeated 6 times to sample the overlap); non-trivial = workers >= 2, input >= workers+1, and some release opened a gate other than the oldest; distinct = different canonical scenario'),
+           'calls in flight stay gated across a cancel (an output observed closed while a call is in flight is a violation, cancelled or not); a constructed class makes every in-flight call return in the same batch with the output buffer partly filled and nobody receiving (repeated 6 times to sample the overlap); a sixth of the scenarios run an independent second instance alongside, stages are also created on an already cancelled context; a separate part streams elements of type any through fork.Map/Filter/Partition; non-trivial = workers >= 2, input >= workers+1, and some release opened a gate other than the oldest; distinct = different canonical scenario'),
      assumptions=E3_ASSUME + ['on cancel the harness opens all gates (a stage cannot terminate a user function that blocks forever)',
                               'Lift-mode fork stages are checked for closure, leaks and sub-multisets only (each worker stops at its own first failure)',
                               'in the free-running tier a hang is a 20 s timeout and reported as inconclusive; termination is decided by the bubble tier'],
@@ -226,7 +226,7 @@ prop('C10',
      rule=('generated: 1..6 workers x input length by class (empty, <= workers, up to 15) x 7 commutative monoids (sum/0, product/1 over distinct primes, max/MinInt, min/MaxInt, and/all-ones, bit-union/0, sum mod p) '
            'with element encodings that keep partial results distinguishable x capacity 0..3 x scripts with release moves gating every Combine call (so the distribution of elements over workers and the merge order are scripted) x optional cancel; '
            'plus the free-running -race tier; oracle: exactly one value, equal to pipe.Fold run on the same input with the same monoid and to a plain loop from Empty(), then closed; under cancel nothing or that value; '
-           'one in six scenarios uses 60..200 elements in a buffer of 64..len (pre-filled before the stage is created, workers ungated half of the time); a separate part folds with monoids whose carrier is a reference type and whose Combine merges into its left operand (histogram map, counter behind a pointer), compared with pipe.Fold; non-trivial = identity different from the zero value, or input >= workers >= 2; distinct = different canonical scenario'),
+           'one in six scenarios uses 60..200 elements in a buffer of 64..len (pre-filled before the stage is created, workers ungated half of the time); a separate part folds with monoids whose carrier is a reference type and whose Combine merges into its left operand (histogram map, counter behind a pointer), compared with pipe.Fold; a sixth of the short scenarios run an independent second fold alongside (same input, own context); stages are also created on an already cancelled context; non-trivial = identity different from the zero value, or input >= workers >= 2; distinct = different canonical scenario'),
      assumptions=E3_ASSUME + ['integer overflow wraps (still commutative and associative); product inputs are distinct primes with at most 15 elements'],
      parts=[
          dict(name='ref-carrier', engine='E4', pkg='pipes', test='TestC10Ref',
@@ -281,7 +281,7 @@ prop('C12',
      level='exploration',
      rule=('generated: k in {0,1,2,3,4,5,9,12} inputs of 0..6 tagged elements (input*1000+seq), capacities 0..3 each, scripts of up to 40+4k moves interleaving sends/bursts/closes on all inputs and receives; '
            'oracle at every receive: per-input subsequence of the delivered elements is a prefix of that input, no foreign element; if the output is observed closed: every input closed and fully delivered; completion: everything delivered then closed; '
-           'the slice of channels handed to Join is overwritten right after the call; one scenario in eight hands the same channel to Join twice (multiset oracle, no invented values); non-trivial = k >= 2, two non-empty inputs, sends alternate between inputs; distinct = different canonical scenario'),
+           'the slice of channels handed to Join is overwritten right after the call; one scenario in eight hands the same channel to Join twice (multiset oracle, no invented values); a fifth of the scenarios run an independent second Join alongside; a separate part joins streams of type any; all scripts of 6 (thorough: 8) moves over {send 0, send 1, close 0, close 1, recv} on two inputs are enumerated for three capacity pairs; non-trivial = k >= 2, two non-empty inputs, sends alternate between inputs; distinct = different canonical scenario'),
      assumptions=E3_ASSUME,
      parts=[
          dict(name='any-elements', engine='E3', pkg='pipes', test='TestC12Any', replay_test='TestReplayAny',
@@ -304,7 +304,7 @@ prop('C14',
            'sub-trees evaluated with a shift derived from the outer element and return nil on a drawn residue class; oracle: a list interpreter '
            '(evalS) compared with the slice collected by the documented loop, and with seq.ForEach under a callback failing at a drawn position '
            '(visited prefix and returned error); source slices compared with private copies afterwards; '
-           'a third of the slice leaves are windows buf[:n] of larger buffers whose hidden capacity holds sentinels that must survive; non-trivial = depth >= 3, expected length >= 1, >= 2 different combinators; distinct = different canonical tree+fail position'),
+           'a third of the slice leaves are windows buf[:n] of larger buffers whose hidden capacity holds sentinels that must survive; in a separate generated part two expressions over shared leaf buffers are drained alternately, step by step; non-trivial = depth >= 3, expected length >= 1, >= 2 different combinators; distinct = different canonical tree+fail position'),
      assumptions=['element type int only; user functions are pure and total', 'an empty result may be a nil Seq or an iterator-less loop: compared by the collected slice'],
      parts=[
          dict(name='enum', engine='E5', pkg='iters', test='TestC14Enum', kind='plain', quick=dict(shards=4), thorough=dict(shards=8)),
@@ -327,7 +327,7 @@ prop('C15',
            'combinators through ToSeq/FromSeq; leaves carry keys in 1000..1020 and values in 0..20 so a swapped or stale key is visible; predicates, '
            'mappings and join bodies depend asymmetrically on (key, value) (e.g. k-2v mod m); oracle: list-of-pairs interpreter (evalP) vs the '
            '(Key(),Value()) pairs collected by the documented loop and by pair.ForEach with a failing callback; '
-           'non-trivial = depth >= 3, expected length >= 1, >= 2 different combinators; distinct = different canonical tree+fail position'),
+           'in a separate generated part two expressions over shared leaves are drained alternately; non-trivial = depth >= 3, expected length >= 1, >= 2 different combinators; distinct = different canonical tree+fail position'),
      assumptions=['key and value type int only; user functions are pure and total'],
      parts=[
          dict(name='enum', engine='E5', pkg='iters', test='TestC15Enum', kind='plain', quick=dict(shards=4), thorough=dict(shards=8)),
@@ -351,7 +351,7 @@ prop('C16',
            'explicit stack of open contexts gives the expected tree and its DFS callback trace (kind, depth, Type/TypeA/TypeB as literal strings, payload, Root, '
            'Deferred, child count); checked with a recording visitor (trace equality, bracket discipline, depth = parent+1) and with a visitor failing at EVERY callback '
            'index (exactly k+1 callbacks, Apply returns that very error); '
-           'non-trivial = one nested context closed by Unit and another still open, or nesting >= 2; distinct = different canonical program'),
+           'a separate generated part builds two programs alternately, statement by statement, and applies both; non-trivial = one nested context closed by Unit and another still open, or nesting >= 2; distinct = different canonical program'),
      assumptions=['each intermediate morphism is used once (the statement\'s proviso): the AST is shared by pointer between a morphism and its derivatives',
                   'payloads are ints; type universe is finite (16 types)'],
      parts=[
@@ -398,7 +398,7 @@ prop('C18',
            'under 3 drawn height seeds (virtual clock offset inside a synctest bubble, which is what seeds the node heights); oracle: Go map for every '
            'return value and for Get of the whole universe after EVERY step, plus the parsed String() form after every step (live keys strictly ascending '
            'under the scenario order and equal to the model key set, forward pointers only to strictly larger live keys); '
-           'string keys include percent characters (100%, %v, a%sb, %d%%); non-trivial = the history re-inserts or reads a removed key, overwrites a key, or inserts in descending order; distinct = different canonical scenario'),
+           'string keys include percent characters (100%, %v, a%sb, %d%%); a third of the histories drive a second list alongside (own model) with interleaved operations; non-trivial = the history re-inserts or reads a removed key, overwrites a key, or inserts in descending order; distinct = different canonical scenario'),
      assumptions=['internal/maplike is exercised as a staged copy of the working-tree sources under the import path github.com/fogfish/golem/maplike',
                   'node heights are made deterministic through the bubble clock only (no source change): skiplist.New seeds from time.Now()',
                   'string keys are non-empty and contain no blanks so that the printed form can be parsed unambiguously'],
@@ -446,7 +446,7 @@ prop('C20',
      rule=('generated: N in 2..20, a family of N functions (position-tagged trace appenders on strings, '
            'affine maps mod 1000003, arbitrary lookup tables on [0,7)), 1..3 arguments applied in turn to the one '
            'composed function; oracle: left-to-right fold of the same functions + per-function call counters; '
-           'two more families: functions over `any` returning the nil interface for some inputs, and a stage that re-enters the composed function while the outer call is in flight; a third of the scenarios call with the same argument twice in a row; non-trivial = all N functions pairwise different; distinct = different canonical scenario'),
+           'two more families: functions over `any` returning the nil interface for some inputs, and a stage that re-enters the composed function while the outer call is in flight; a third of the scenarios call with the same argument twice in a row; a separate generated part builds two compositions and calls them alternately; non-trivial = all N functions pairwise different; distinct = different canonical scenario'),
      assumptions=['internal/pipe is exercised as a staged copy of the working-tree source (package pure, imported as verif.stage/purepipe)',
                   'type parameters are instantiated at int and string only; the generic bodies are parametric in their types'],
      parts=[
